@@ -542,3 +542,9 @@ Definition stale_witness_skipped : list stage :=
     [[([], None)]]
     [([[(ESave, 0)]; [(ESym, 5)]; [(ESub, 7)]; [(EStr, 6)]], None)]
     false [] [([], None)] [([], None)] [None].
+
+(* a whole run around that call: one round, an expansion cut between its two appends, a check_results whose only
+   comparison is cut *)
+Definition ex_run : genrun :=
+  mkRun [[mkCall [0] [2] stale_witness_script]] [([[(EXi, 0)]; [(EXv, 5)]], Some 1)] [] [] [0]
+        [mkChk false ([[(ERaise, 0)]], Some 0)].
